@@ -149,8 +149,20 @@ func (this *Hnsw) Load(r io.Reader, header bool) error {
 	var numEdges uint32
 	var distance float32
 
+	// The loaded state replaces whatever the index held
+	this.len = 0
+	this.bytesSize = 0
+	for i, _ := range this.vertices {
+		this.vertices[i] = make(map[uuid.UUID]*hnswVertex)
+	}
+	atomic.StorePointer(&this.entrypoint, nil)
+
 	uuidBuf := make([]byte, uuid.Size)
 	if _, err := io.ReadFull(r, uuidBuf); err != nil {
+		if err == io.EOF {
+			// Save writes nothing for an empty index
+			return nil
+		}
 		return err
 	}
 	entrypointId, err := uuid.FromBytes(uuidBuf)
@@ -158,8 +170,6 @@ func (this *Hnsw) Load(r io.Reader, header bool) error {
 		return err
 	}
 
-	this.len = 0
-	this.bytesSize = 0
 	// Load vertices
 	var shardSize uint32
 	var vertex *hnswVertex
